@@ -262,6 +262,11 @@ def _run(ctx, a):
 
     # 1. source-derived constants
     consts_changed, const_problems = regen_consts()
+    # only the extractor plugins this property's models use can break it (module attr CONSTS,
+    # default: the names in COMPONENTS)
+    mine = set(getattr(mod, "CONSTS", mod.COMPONENTS))
+    const_problems = [p for p in const_problems if p.split(":", 1)[0] in mine]
+    consts_changed = [c for c in consts_changed if c in mine]
 
     # 2. build: models + driver first (needed for correspondence and search), then the theorems
     ok_model, out_model = lake_build(["model_" + c for c in mod.COMPONENTS])
